@@ -2,6 +2,7 @@
 
 Started by runner.py with a fixed PYTHONHASHSEED (the hash lane). Jobs:
   {"cmd": "run", "prop": "C02", "index": 17, "base": 0, "tier": "quick"}    generate + execute (+ lift)
+  {"cmd": "gen", "prop": "C02", "index": 17, "base": 0, "tier": "quick"}    generate only (case of a run that hangs)
   {"cmd": "case", "case": {...}}                                               execute an explicit case (replay)
   {"cmd": "shrink", "case": {...}, "budget": 60}                              minimise a failing case
 """
@@ -32,6 +33,8 @@ def handle(job):
             out['case'] = case
         elif job.get('want_sample'):
             out['sample'] = sample_of(case)
+    elif cmd == 'gen':
+        out = {'case': dispatch.generate(job['prop'], job['index'], job['base'], job['tier'])}
     elif cmd == 'case':
         result = dispatch.execute(job['case'])
         out = {'result': result}
